@@ -229,7 +229,22 @@ def exec_ir(model, env, amounts=None):
     from pharmpy.model import Assignment, CompartmentalSystem, output
     from .qeval import Evaluator, Q, Undef, _sp
 
-    E = Evaluator(dict(env), None)
+    class Ev(Evaluator):
+        """Float constants of the IR are read as the decimal / small rational they stand for: the reader's symbolic
+        engine rewrites x/0.75 as 1.33333333333333*x and 0.1+0.2 as 0.30000000000000004; taken bit by bit those
+        would flip INT/MOD/comparisons exactly at their discontinuities."""
+
+        def ev(self, e):
+            e = _sp(e)
+            if e.is_Float:
+                f = Fraction(repr(float(e)))
+                g = f.limit_denominator(100000)
+                if f == g or (g != 0 and abs(f - g) <= abs(g) * Fraction(1, 10**12)):
+                    return Q(g)
+                return Q(f)
+            return super().ev(e)
+
+    E = Ev(dict(env), None)
     vals, why, ode = {}, {}, None
     for s in model.statements:
         if isinstance(s, Assignment):
